@@ -127,6 +127,56 @@ def reactor_recv():
                 vals.append(v)
     return vals[0] if len(set(vals)) == 1 else None
 
+# ---- the opcode -> (field reader, handler) dispatch tables of the three protocol base classes (C16), read off the if/elif
+# chain of message_received / messageReceived.  Handler names are canonicalised (on_info / onInfo -> oninfo).
+DEFAULT_DISPATCH = [[0, 'readerror', 'onerror', 0], [1, 'readinfo', 'oninfo', 1], [2, 'readauth', 'onauth', 1],
+                    [3, 'readpublish', 'onpublish', 1], [4, 'readsubscribe', 'onsubscribe', 1], [5, 'readunsubscribe', 'onunsubscribe', 1]]
+
+def dispatch_table(rel, method_names):
+    t = _tree(rel)
+    c = _cls(t, 'BaseProtocol')
+    m = None
+    for nm in method_names:
+        m = m or _method(c, nm)
+    if m is None:
+        return None
+    opn, rows = m.args.args[1].arg if len(m.args.args) > 1 else None, []
+    node = next((st for st in m.body if isinstance(st, ast.If)), None)
+    while node is not None:
+        tst = node.test
+        if not (isinstance(tst, ast.Compare) and len(tst.ops) == 1 and isinstance(tst.ops[0], ast.Eq)
+                and isinstance(tst.left, ast.Name) and tst.left.id == opn and isinstance(tst.comparators[0], ast.Name)):
+            return None
+        opname = tst.comparators[0].id
+        if opname not in out or len(node.body) != 1 or not isinstance(node.body[0], ast.Return):
+            return None
+        call = node.body[0].value
+        if not (isinstance(call, ast.Call) and isinstance(call.func, ast.Attribute) and isinstance(call.func.value, ast.Name)
+                and call.func.value.id == 'self' and len(call.args) == 1 and not call.keywords):
+            return None
+        arg, star = call.args[0], 0
+        if isinstance(arg, ast.Starred):
+            arg, star = arg.value, 1
+        if not (isinstance(arg, ast.Call) and isinstance(arg.func, ast.Name) and len(arg.args) == 1):
+            return None
+        rows.append([out[opname], arg.func.id, call.func.attr.replace('_', '').lower(), star])
+        nxt = node.orelse
+        node = nxt[0] if len(nxt) == 1 and isinstance(nxt[0], ast.If) else None
+        if nxt and node is None:
+            return None
+    return rows or None
+
+disp = {}
+for key, rel, names in (('AIO', 'hpfeeds/asyncio/protocol.py', ('message_received',)),
+                        ('BLK', 'hpfeeds/blocking/protocol.py', ('message_received',)),
+                        ('TW', 'hpfeeds/twisted/protocol.py', ('messageReceived', 'message_received'))):
+    try:
+        v = dispatch_table(rel, names)
+    except Exception:
+        v = None
+    disp[key] = {'value': v if v is not None else DEFAULT_DISPATCH, 'extracted': v is not None}
+out['DISPATCH'] = disp
+
 lit = {}
 for name, fn, default in (('GRACE_MS', grace_ms, 60000), ('HIGH_WATER_FACTOR', high_water_factor, 50), ('REACTOR_RECV', reactor_recv, 1024)):
     try:
@@ -167,6 +217,12 @@ def extract(root=None):
     lines.append('-- literals read off the syntax tree of broker/connection.py and blocking/reactor.py (default when the pattern is not found)')
     for k in ('GRACE_MS', 'HIGH_WATER_FACTOR', 'REACTOR_RECV'):
         lines.append('def %s : Nat := %d   -- %s' % (k, c['LITERALS'][k]['value'], 'extracted' if c['LITERALS'][k]['extracted'] else 'DEFAULT (not found in the source)'))
+    lines.append('-- opcode -> (field reader, canonical handler name, called with *fields) of the three BaseProtocol classes, read off the')
+    lines.append('-- if/elif chain of message_received / messageReceived (default table when the chain has another shape)')
+    for k in ('AIO', 'BLK', 'TW'):
+        d = c['DISPATCH'][k]
+        lines.append('def DISPATCH_%s : List (Nat × String × String × Nat) := [%s]   -- %s' % (
+            k, ', '.join('(%d, "%s", "%s", %d)' % tuple(r) for r in d['value']), 'extracted' if d['extracted'] else 'DEFAULT (shape not recognised)'))
     lines.append('end Hpfeeds.Extracted')
     text = '\n'.join(lines) + '\n'
     old = None
